@@ -115,6 +115,8 @@ def run(chk: common.Check):
     small = ["conf-alt-AB.pdb", "conf-alt-AB-mutant.pdb", "conf-model-missing-atoms.pdb", "sample-issue-140.pdb"]
     for n in small:
         cases.append((n, structures.read(n), [], "default"))
+    # display mode on a structure with a non-covalently coupled pair (ASP 25 A / ASP 25 B): the swapped state is kept and must be consistent
+    cases.append(("1HPX.pdb", structures.read("1HPX.pdb"), ["-d"], "default"))
     big = ["3SGB-subset.pdb"] + (["1HPX.pdb", "1FTJ-Chain-A.pdb", "4DFR.pdb"] if chk.thorough else [])
     for n in big:
         t = structures.read(n)
